@@ -340,6 +340,14 @@ func runModel(c Case) (modelResult, error) {
 	return r, nil
 }
 
+// abbrev prints a list of deficits, shortened in the middle when it is long.
+func abbrev[T any](l []T) string {
+	if len(l) <= 12 {
+		return fmt.Sprint(l)
+	}
+	return fmt.Sprintf("[%v %v %v %v ... (%d in all) ... %v %v %v]", l[0], l[1], l[2], l[3], len(l), l[len(l)-3], l[len(l)-2], l[len(l)-1])
+}
+
 func classOf(err error) string {
 	switch {
 	case err == nil:
@@ -530,7 +538,7 @@ func judgeFund(ctx *pbt.Ctx, c Case, want modelResult, tx *bt.Tx, lq *ref.FeeQuo
 		ctx.NonTrivial()
 	}
 	desc := func() string {
-		return fmt.Sprintf("[model: class=%s deficits=%v batches handed=%d of %d; library: err=%v deficits=%v]", want.class, want.deficits, want.handed, len(c.Batches), ferr, got)
+		return fmt.Sprintf("[model: class=%s deficits=%s batches handed=%d of %d; library: err=%v deficits=%s]", want.class, abbrev(want.deficits), want.handed, len(c.Batches), ferr, abbrev(got))
 	}
 
 	// ---- outputs untouched, in every case ----------------------------------------------
@@ -768,9 +776,9 @@ func genCase(t *rapid.T) Case {
 	c.Tx.In, c.RepPrior = stored, rep
 	// very many supplier calls (the statement puts no bound on their number), stored as a count
 	switch k := rapid.IntRange(0, 11999).Draw(t, "long_run"); {
-	case k >= 11940: // a run of empty batches somewhere in the history
+	case (k == 3003 || k == 7001 || k == 9009) && rep == 0: // a run of empty batches somewhere in the history
 		longRunEmpty(&c, rapid.IntRange(0, len(c.Batches)).Draw(t, "long_at"), rapid.SampledFrom(longRunCounts).Draw(t, "long_n"))
-	case k == 5003 && rep == 0: // a run of small UTXOs every one of which is needed
+	case k == 5003 && rep == 0 && rapid.IntRange(0, 3).Draw(t, "long_small") == 2: // a run of small UTXOs every one of which is needed (costly: rare)
 		longRunSmall(&c, rapid.SampledFrom(longRunCounts[:4]).Draw(t, "long_n"), gen.Bytes(t, 32, "long_txid"), gen.Bytes(t, 20, "long_pkh"))
 	}
 	return c
